@@ -1273,13 +1273,19 @@ void NifFile::TrimTexturePaths() {
 	}
 }
 
-void NifFile::CloneChildren(NiObject* block, NifFile* srcNif) {
+void NifFile::CloneChildren(NiObject* block, NifFile* srcNif, const uint32_t srcBlockId) {
 	if (!srcNif)
 		srcNif = this;
 
-	// Assign new refs and strings, rebind ptrs where possible
-	std::function<void(NiObject*, uint32_t, uint32_t)> cloneBlock =
-		[&](NiObject* b, uint32_t parentOldId, uint32_t parentNewId) -> void {
+	// Source index -> new index of every cloned block (and of the block itself, if its source index is known)
+	std::unordered_map<uint32_t, uint32_t> newIds;
+	if (srcBlockId != NIF_NPOS)
+		newIds[srcBlockId] = GetBlockID(block);
+
+	std::vector<NiObject*> clonedBlocks;
+
+	// Assign new refs and strings
+	std::function<void(NiObject*)> cloneBlock = [&](NiObject* b) -> void {
 		std::set<NiRef*> refs;
 		b->GetChildRefs(refs);
 
@@ -1290,8 +1296,9 @@ void NifFile::CloneChildren(NiObject* block, NifFile* srcNif) {
 				auto destChild = destChildS.get();
 				uint32_t destId = hdr.AddBlock(std::move(destChildS));
 
-				uint32_t oldId = r->index;
+				newIds[r->index] = destId;
 				r->index = destId;
+				clonedBlocks.push_back(destChild);
 
 				std::vector<NiStringRef*> strRefs;
 				destChild->GetStringRefs(strRefs);
@@ -1301,23 +1308,24 @@ void NifFile::CloneChildren(NiObject* block, NifFile* srcNif) {
 					str->SetIndex(strId);
 				}
 
-				if (parentOldId != NIF_NPOS) {
-					std::set<NiRef*> ptrs;
-					destChild->GetPtrs(ptrs);
-
-					for (auto& p : ptrs)
-						if (p->index == parentOldId)
-							p->index = parentNewId;
-
-					cloneBlock(destChild, parentOldId, parentNewId);
-				}
-				else
-					cloneBlock(destChild, oldId, destId);
+				cloneBlock(destChild);
 			}
 		}
 	};
 
-	cloneBlock(block, NIF_NPOS, NIF_NPOS);
+	cloneBlock(block);
+
+	// Rebind ptrs that point to a cloned block (e.g. the target of a controller or collision object)
+	for (auto& b : clonedBlocks) {
+		std::set<NiRef*> ptrs;
+		b->GetPtrs(ptrs);
+
+		for (auto& p : ptrs) {
+			auto it = newIds.find(p->index);
+			if (it != newIds.end())
+				p->index = it->second;
+		}
+	}
 }
 
 NiShape* NifFile::CloneShape(NiShape* srcShape, const std::string& destShapeName, NifFile* srcNif) {
@@ -1346,7 +1354,7 @@ NiShape* NifFile::CloneShape(NiShape* srcShape, const std::string& destShapeName
 		rootNode->childRefs.AddBlockRef(destId);
 
 	// Children
-	CloneChildren(destShape, srcNif);
+	CloneChildren(destShape, srcNif, srcNif->GetBlockID(srcShape));
 
 	// Geometry Data
 	auto destGeomData = hdr.GetBlock<NiTriBasedGeomData>(destShape->DataRef());
